@@ -2,6 +2,7 @@
    stdin: one case per line   <init-hex>|<op> <op> ...
      a<hex> assign   c<hex> concat   p<hex> append   z<n> resize   r<hex> rem   m<hex> mem
      k<hex> cmp      e<hex> eq       l len           s c_str       h hash
+     A C P R M K E   assign / concat / append / rem / mem / cmp / eq with the String itself as argument
      f<pos>:<piece>,<piece>,...  print_to at pos; piece = L<hex> literal | S<hex> %s | D<int> %li
    argv[1] = model | spec ; one line per case, steps separated by " | ", first step = "new":
      model:  <out>;<chars-hex>;<alloc>;<cells>      cells: two hex digits per byte, ?? = indeterminate
@@ -36,6 +37,8 @@ let parse_op s : sop =
   | 'r' -> ORem (bytes_of_hex r) | 'm' -> OMem (bytes_of_hex r)
   | 'k' -> OCmp (bytes_of_hex r) | 'e' -> OEq (bytes_of_hex r)
   | 'l' -> OLen | 's' -> OCStr | 'h' -> OHash
+  | 'A' -> OAssignSelf | 'C' | 'P' -> OConcatSelf | 'R' -> ORemSelf | 'M' -> OMemSelf
+  | 'K' -> OCmpSelf | 'E' -> OEqSelf
   | 'f' -> (match String.index_opt r ':' with
             | Some i -> OPrint (nat_of_int (int_of_string (String.sub r 0 i)),
                                 List.map parse_piece (split_on ',' (String.sub r (i + 1) (String.length r - i - 1))))
